@@ -2,6 +2,7 @@
 binding of each stage to its worker function (DESIGN.md 2.4)."""
 import ast
 
+from sa import sym
 from sa.cfg import CFG, enclosing_stmts
 from sa.model import AnalysisError, callee, callee_attr, dotted, own_nodes, own_calls
 
@@ -223,7 +224,6 @@ def resolve_callee(project, func, call):
 # ---------------------------------------------------------------------------
 # effect summaries of project helper functions (wrapper recognition)
 
-_SUMMARY_CACHE = {}
 
 
 def summarize(project, func, depth=0):
@@ -233,13 +233,14 @@ def summarize(project, func, depth=0):
     iterating the parameter, or 'attr:<a>' for an attribute read.  Effects of
     nested project helpers are merged in (depth <= 2).  'raises' is recorded
     under the pseudo-parameter '<fn>'."""
-    key = (id(project), func.qual)
-    if key in _SUMMARY_CACHE:
-        return _SUMMARY_CACHE[key]
+    cache = sym.project_cache(project, "effect-summaries")
+    key = func.qual
+    if key in cache:
+        return cache[key]
     params = func.params()
     eff = {p: set() for p in params}
     eff["<fn>"] = set()
-    _SUMMARY_CACHE[key] = eff
+    cache[key] = eff
     aliases = {}  # loop var -> iterated param
     for n in own_nodes(func.node):
         if isinstance(n, (ast.For, ast.comprehension)) and isinstance(n.target, ast.Name) \
